@@ -27,7 +27,9 @@ func TestReproSendOnClosed(t *testing.T) {
 				return
 			default:
 			}
-			f.push(headerQuery, i)
+			if f.pushQuiet(headerQuery, i) != nil {
+				return
+			}
 		}
 	}()
 	deadline := time.Now().Add(20 * time.Second)
